@@ -35,12 +35,14 @@ type recorder struct {
 	mode    string
 	fired   bool
 	seen    int
+	total   int // every boundary since the start of the process (armed or not)
 }
 
 // boundary is called BEFORE a step is performed.
 func (r *recorder) boundary(what string) error {
 	r.mu.Lock()
 	defer r.mu.Unlock()
+	r.total++
 	if !r.armed {
 		return nil
 	}
